@@ -4,9 +4,9 @@ prop("C02",
            "thorough: both parities x 3 reserve modes), thorough also all 2^16 white-flat subsets of 4x4 (plain, and with one square "
            "turned into a wall / a capstone); road-shape boards on sizes 3..8 (random edge-to-edge walks, broken by wall/enemy/hole, "
            "capstones inside, optional second road); flat/full boards with balanced counts and both tie-break settings; many-small-groups boards; reserve modes "
-           "(default, a side out of stones, out of stones with a capstone left); the shared sources of C01 (playouts, constructed stacks, testdata). "
-           "Ops per position: over (real WinDetails vs model), sover (vs list-level rule book), wfb (hypothesis WFBoard+ReservesOK of the "
+           "(default, a side out of stones, out of stones with a capstone left); 1 in 40 positions with a reserve pair adding up to 256 (byte-sum wrap); the shared sources of C01 (playouts, constructed stacks, testdata). "
+           "Ops per position: over (real WinDetails vs model), sover (vs list-level rule book), wfb (hypothesis WFBoard of the "
            "theorems evaluated on the real position data vs on the model), result/sresult (ptn.ResultFromGame incl. its panic when not over), dump for 1 in 4 (group lists). Every distinct op line counts; trivial = none"),
-     assumptions=["reserve sums stones+capstones of each side fit a byte (<= 255): beyond that the real `whiteStones+whiteCaps != 0` test wraps around (e.g. Pieces=253, Capstones=3 ends the game at the start position)",
+     assumptions=["the model is of the tree with fixes/C02-reserve-wrap.diff applied (GameOver tests each reserve counter instead of the wrapping byte sum stones+capstones); until the fix is in /repo the cases it changes (a reserve pair adding up to 256) are reported as KNOWN-FINDING C02-reserve-wrap",
                   "RoadWF (size 3..8, constants = Precompute(size), White/Black on the board and disjoint, groups = analyze()) is the hypothesis of hasRoad_iff / winDetails_refines / gameOver_refines / result_refines; "
                   "it is proved for New (new_wf) and for every result of FromSquares (fromSquares_wf); its preservation by Move belongs to C01 (move_refines / reachable_wf); here the stronger WFBoard is evaluated on every sampled position (op wfb: always 1 on both sides)"])
